@@ -4,7 +4,7 @@ Events: return values of find_missing_cases / parse_into_cases / is_case_missing
 generated datasets; Harvester.full_ds after harvesting exactly what was reported.
 Oracle: brute force over the non-ignored dimensions: a location is missing iff every
 variable is entirely null there (isnull) / entirely non-finite (isfinite); grid order; no
-duplicates; requested locations with absent coordinates are reported; after harvesting
+duplicates; requested locations with absent coordinates (far away and near misses of existing labels) are reported; after harvesting
 the reported cases a second search returns nothing.
 """
 import os
